@@ -58,7 +58,8 @@ def required_cells(tier):
             cells.append('corrupt:%s:%s' % (f, c))
     cells += ['corrupt:C:letter', 'corrupt:A:letter']
     cells += ['depth:1', 'depth:2', 'depth:3', 'nothing-ran:comment-only', 'nothing-ran:skip-block',
-              'nothing-ran:google-no-prompts', 'nothing-ran:bare-prompt', 'no-want-at-all', 'blankline-want:A', 'blankline-want:B', 'ok:I', 'stale-after-ignored-want']
+              'nothing-ran:google-no-prompts', 'nothing-ran:bare-prompt', 'no-want-at-all', 'blankline-want:A', 'blankline-want:B', 'ok:I', 'stale-after-ignored-want',
+              'stale-from-before-the-ignored-statement']
     cells += ['escape:' + k for k, _ in ESCAPES]
     return cells
 
@@ -180,6 +181,7 @@ def plan_wants(rng, S, ref, corrupt):
     last_value = None       # repr of the value of the most recent expression that was checked against a want
     stale = []              # want lines spelling the output that the previous want has already consumed
     prev_ignored = False    # the previous want was switched off by an inline +IGNORE_WANT
+    before_ignored = []     # ... and this is what had been printed before the statement that carries it
     for idx, st in enumerate(S):
         out = ref.outs[idx]
         acc += out
@@ -200,7 +202,10 @@ def plan_wants(rng, S, ref, corrupt):
             if any(w == '<BLANKLINE>' for w in wl):
                 blank_wants.append(tag)
             if corrupt_at == idx:
+                stale_before_ignored = False
                 c = rng.choice(CORRUPTIONS)
+                if prev_ignored and tag == 'A' and any(w != '<BLANKLINE>' for w in before_ignored) and rng.random() < 0.5:
+                    c = 'stale'
                 # dropping a final <BLANKLINE> changes nothing (trailing whitespace is not compared)
                 # ... and a want left with <BLANKLINE> lines only is an empty want, which the empty output of a silent
                 # final statement satisfies
@@ -237,7 +242,12 @@ def plan_wants(rng, S, ref, corrupt):
                 elif c == 'stale':
                     # the output printed before the PREVIOUS want, then the correct text: that output is no longer
                     # "since the previous want", so this is not a trailing portion of what may be matched
-                    wl = stale + wl
+                    if prev_ignored and any(w != '<BLANKLINE>' for w in before_ignored) and rng.random() < 0.7:
+                        # (only what want-less statements printed BEFORE the statement whose want is ignored)
+                        wl = before_ignored + wl
+                        stale_before_ignored = True
+                    else:
+                        wl = stale + wl
                 elif c == 'replace':
                     wl = ['BOGUS%d' % idx]
                 elif c == 'append':
@@ -247,12 +257,14 @@ def plan_wants(rng, S, ref, corrupt):
                 elif c == 'drop':
                     wl = wl[:-1]
                 expect_fail = {'index': idx, 'want': '\n'.join(wl), 'form': tag, 'corruption': c,
-                               'after_ignored_want': prev_ignored}
+                               'after_ignored_want': prev_ignored, 'stale_before_ignored': stale_before_ignored}
                 wants[idx] = wl
                 placed.append((idx, tag, depth))
                 break
             prev_ignored = False
+            before_ignored = []
             if len(st.lines) == 1 and '#' not in st.lines[0] and rng.random() < 0.15:
+                before_ignored = out_to_want(acc[:len(acc) - len(out)]) if len(acc) > len(out) else []
                 # the want is switched off for this statement only; it still is "the previous want" for the next one
                 st.lines[0] += '  # xdoctest: +IGNORE_WANT'
                 wl = ['IGNORED%d whatever' % idx]
@@ -392,6 +404,8 @@ def check_case(ctx, index, case_seed):
         ctx.cell('corrupt:%s:%s' % (tag, cor))
         if cor == 'stale' and expect_fail.get('after_ignored_want'):
             ctx.cell('stale-after-ignored-want')
+            if expect_fail.get('stale_before_ignored'):
+                ctx.cell('stale-from-before-the-ignored-statement')
         if tag == 'A':
             ctx.cell('depth:%d' % min(placed[-1][2], 4))
     if ctx.shard == 0:
